@@ -423,7 +423,7 @@ func (m *Machine) check(extra *term.Term, timeoutMs int) solver.Result {
 		m.Stats.FeasByModel++
 		return solver.Sat
 	}
-	if res, mod := m.truthTable(extra, 10); res != solver.Unknown {
+	if res, mod := m.truthTableCost(extra, 16, 3_000_000); res != solver.Unknown {
 		m.Stats.FeasByModel++
 		if res == solver.Sat {
 			m.models = append(m.models, &poolModel{m: mod})
@@ -896,7 +896,7 @@ func (m *Machine) obligation(kind, msg, where string, bad *term.Term) bool {
 	var r solver.Result
 	var model func(*term.Term) uint64
 	// cheap exact decision first: at most 12 free input bits in the whole query
-	if res, mod := m.truthTable(bad, 12); res != solver.Unknown {
+	if res, mod := m.truthTableCost(bad, 16, 5_000_000); res != solver.Unknown {
 		m.Stats.ByTruthTable++
 		if res == solver.Unsat {
 			m.Stats.SolverUnsat++
@@ -940,7 +940,7 @@ func (m *Machine) obligation(kind, msg, where string, bad *term.Term) bool {
 	if r == solver.Unknown {
 		// few free input bits: decide the encoded formula by its truth table (complete for the
 		// SMT term the solvers could not finish; counted separately in the evidence)
-		if res, mod := m.truthTable(bad, 16); res != solver.Unknown {
+		if res, mod := m.truthTableCost(bad, 20, 2_000_000_000); res != solver.Unknown {
 			r = res
 			m.Stats.ByTruthTable++
 			if mod != nil {
@@ -967,6 +967,10 @@ func (m *Machine) obligation(kind, msg, where string, bad *term.Term) bool {
 // truthTable decides pc ∧ bad by enumerating every assignment of the variables it mentions, when
 // they total at most maxBits bits.
 func (m *Machine) truthTable(bad *term.Term, maxBits int) (solver.Result, *term.Model) {
+	return m.truthTableCost(bad, maxBits, 200_000_000)
+}
+
+func (m *Machine) truthTableCost(bad *term.Term, maxBits int, maxCost uint64) (solver.Result, *term.Model) {
 	roots := append(append([]*term.Term{}, m.pc...), bad)
 	comp := term.Compile(roots...)
 	bitsTotal := 0
@@ -980,7 +984,7 @@ func (m *Machine) truthTable(bad *term.Term, maxBits int) (solver.Result, *term.
 			return solver.Unknown, nil
 		}
 	}
-	if bitsTotal > maxBits || uint64(comp.Size())<<uint(bitsTotal) > 400_000_000 {
+	if bitsTotal > maxBits || uint64(comp.Size())<<uint(bitsTotal) > maxCost {
 		return solver.Unknown, nil
 	}
 	assign := map[int]uint64{}
